@@ -36,6 +36,34 @@ Fixpoint lz_copy (n : nat) (off : nat) (rev_buf : list Z) : list Z :=
   | S k => lz_copy k off (nth (off - 1) rev_buf 0 :: rev_buf)
   end.
 
+(** the same copy done in chunks of at most [off] bytes, as [repeat_in_chunks] does (cost O(n + off) instead of
+    O(n * off)); proved equal to [lz_copy] in proofs/C09_Lz.v *)
+Fixpoint lz_copy_chunks (fuel : nat) (n off : nat) (rev_buf : list Z) : list Z :=
+  match fuel with
+  | O => rev_buf
+  | S f =>
+      match n with
+      | O => rev_buf
+      | _ =>
+          let c := Nat.min off n in
+          match c with
+          | O => rev_buf
+          | _ => lz_copy_chunks f (n - c) off (firstn c (skipn (off - c) rev_buf) ++ rev_buf)
+          end
+      end
+  end.
+Definition lz_copy_fast (n off : nat) (rev_buf : list Z) : list Z := lz_copy_chunks n n off rev_buf.
+
+(** [firstn n l, skipn n l] when [l] has at least [n] elements, in O(n) *)
+Fixpoint split_at (n : nat) (l : list Z) : option (list Z * list Z) :=
+  match n with
+  | O => Some ([], l)
+  | S k => match l with
+           | [] => None
+           | x :: t => match split_at k t with Some (a, b) => Some (x :: a, b) | None => None end
+           end
+  end.
+
 Definition db_set_rev (b : dbuf) (r : list Z) (added : Z) : dbuf :=
   {| db_rev := r; db_len := db_len b + added; db_dict := db_dict b; db_window := db_window b;
      db_total_out := db_total_out b; db_hashed_rev := db_hashed_rev b |}.
@@ -54,14 +82,14 @@ Definition db_repeat (b : dbuf) (offset match_length : Z) : res dbuf :=
         (* self.repeat(self.buffer.len(), match_length - bytes_from_dict): offset = whole buffer *)
         let rest := match_length - bytes_from_dict in
         if db_len b1 =? 0 then RPanic "repeat with offset 0 (endless loop)" else
-        ROk (db_add_total (db_set_rev b1 (lz_copy (Z.to_nat rest) (Z.to_nat (db_len b1)) (db_rev b1)) rest) rest)
+        ROk (db_add_total (db_set_rev b1 (lz_copy_fast (Z.to_nat rest) (Z.to_nat (db_len b1)) (db_rev b1)) rest) rest)
       else
         let low := dl - bytes_from_dict in
         ROk (db_append_raw b (firstn (Z.to_nat match_length) (skipn (Z.to_nat low) (db_dict b))))
     else RErr "OffsetTooBig"
   else
     if (offset =? 0) && (0 <? match_length) then RPanic "repeat with offset 0 (endless loop)" else
-    ROk (db_add_total (db_set_rev b (lz_copy (Z.to_nat match_length) (Z.to_nat offset) (db_rev b)) match_length)
+    ROk (db_add_total (db_set_rev b (lz_copy_fast (Z.to_nat match_length) (Z.to_nat offset) (db_rev b)) match_length)
                       match_length).
 
 (** *** literals section (decode_literals / decompress_literals) *)
@@ -120,7 +148,7 @@ Definition decode_literals (sec : lit_section) (ht : huf_table) (source : list Z
              ROk (o, bytes_read + zlen source)
            else RPanic "assert num_streams == 1") in
         if negb (zlen out_rev =? ls_regen sec) then RErr "DecodedLiteralCountMismatch"
-        else ROk (ht, rev out_rev, bytes_read)
+        else ROk (ht, rev' out_rev, bytes_read)
     end.
 
 (** *** sequences section *)
@@ -225,7 +253,7 @@ Definition decode_sequences (num_sequences : Z) (modes : option Z) (source : lis
       let* (of, br) := (match fs_of_rle s with None => fse_init_state (fs_of s) br | Some _ => ROk (fse_dec_new (fs_of s), br) end) in
       let* (ml, br) := (match fs_ml_rle s with None => fse_init_state (fs_ml s) br | Some _ => ROk (fse_dec_new (fs_ml s), br) end) in
       let* (acc_rev, br) := seq_loop (Z.to_nat num_sequences) num_sequences s ll ml of br 0 [] in
-      if 0 <? rbr_bits_remaining br then RErr "ExtraBits" else ROk (s, rev acc_rev)
+      if 0 <? rbr_bits_remaining br then RErr "ExtraBits" else ROk (s, rev' acc_rev)
   end.
 
 (** *** sequence execution *)
@@ -243,8 +271,10 @@ Fixpoint exec_loop (seqs : list sequence) (lits : list Z) (buf : dbuf) (hist : l
   | sq :: t =>
       let* (buf, lits) :=
         (if 0 <? sq_ll sq then
-           if zlen lits <? sq_ll sq then RErr "NotEnoughBytesForSequence"
-           else ROk (db_push buf (take_z (sq_ll sq) lits), drop_z (sq_ll sq) lits)
+           match split_at (Z.to_nat (sq_ll sq)) lits with
+           | None => RErr "NotEnoughBytesForSequence"
+           | Some (a, rest) => ROk (db_push buf a, rest)
+           end
          else ROk (buf, lits)) in
       let '(actual, hist) := do_offset_history (sq_of sq) (sq_ll sq) hist in
       if actual =? 0 then RErr "ZeroOffset"
